@@ -37,6 +37,7 @@ func init() {
 		"verifGoldenIndex":   pGoldenIndex,
 		"verifGoldenLang":    func(x *Exec, fn *ssa.Function, a []Value) Value { return BVi(int64(x.inst.Lang), 64) },
 		"verifToken":         pToken,
+		"verifByteToken":     pByteToken,
 		"verifPre":           pPre,
 		"verifSpell":         pSpell,
 		"verifOpaque":        pOpaque,
@@ -313,6 +314,42 @@ func pToken(x *Exec, fn *ssa.Function, a []Value) Value {
 	x.inputs = append(x.inputs, Input{Name: name, Kind: "token", Terms: []*Term{v}})
 	x.tokenVars = append(x.tokenVars, v)
 	return x.mkStr([]Atom{{K: ATok, T: v}})
+}
+
+// pByteToken: a token spelled by L symbolic bytes, each an ASCII lowercase letter, that is none of the
+// interned strings (in particular no word of any golden list). Its ID lies in the unknown-token space;
+// code that inspects its text (len, indexing, range, []byte) sees the symbolic bytes.
+func pByteToken(x *Exec, fn *ssa.Function, a []Value) Value {
+	name := constString(a[0], "verifByteToken name")
+	lt := asTerm(a[1])
+	if !lt.IsConst() || lt.Int64() < 1 || lt.Int64() > 64 {
+		panic(unsupported("verifByteToken length must be a constant in 1..64"))
+	}
+	L := int(lt.Int64())
+	id := Var(name+".id", IDW)
+	x.addPC(Ule(BVi(UnkBase+(1<<24), IDW), id))
+	bs := make([]*Term, L)
+	for i := range bs {
+		bs[i] = Var(fmt.Sprintf("%s.b%d", name, i), 8)
+		x.addPC(And(Ule(BVi('a', 8), bs[i]), Ule(bs[i], BVi('z', 8))))
+	}
+	for _, w := range x.in.strs {
+		if len(w) != L {
+			continue
+		}
+		lower := true
+		for i := 0; i < L; i++ {
+			if w[i] < 'a' || w[i] > 'z' {
+				lower = false
+				break
+			}
+		}
+		if lower {
+			x.addPC(Not(bytesEqConst(bs, w)))
+		}
+	}
+	x.inputs = append(x.inputs, Input{Name: name, Kind: "bytetoken", Terms: bs})
+	return &SymStr{A: []Atom{{K: ATok, T: id, B: bs}}}
 }
 
 func pPre(x *Exec, fn *ssa.Function, a []Value) Value {
@@ -634,6 +671,15 @@ func (x *Exec) nativeValues(m map[int]*big.Int) map[string]interface{} {
 			out[in.Name] = val(in.Terms[0]).Sign() != 0
 		case "token":
 			out[in.Name] = x.tokenString(val(in.Terms[0]))
+		case "bytetoken":
+			bs := make([]byte, len(in.Terms))
+			for i, t := range in.Terms {
+				bs[i] = byte(val(t).Int64())
+				if bs[i] < 'a' || bs[i] > 'z' {
+					bs[i] = 'q' // unconstrained in the model: any letter
+				}
+			}
+			out[in.Name] = string(bs)
 		case "lazybytes":
 			for _, o := range x.lazies {
 				if o.Name != in.Aux {
@@ -726,6 +772,16 @@ func (x *Exec) evalStr(v Value, m map[int]*big.Int, vals map[string]interface{})
 			case ALit, ASep:
 				sb.WriteString(a.S)
 			case ATok:
+				if a.B != nil {
+					for _, t := range a.B {
+						c := byte(val(t).Int64())
+						if c < 'a' || c > 'z' {
+							c = 'q'
+						}
+						sb.WriteByte(c)
+					}
+					break
+				}
 				sb.WriteString(x.tokenString(val(a.T)))
 			case AItoa:
 				sb.WriteString(strconv.FormatInt(toSigned(val(a.T), 64).Int64(), 10))
